@@ -148,3 +148,145 @@ def run(ctx):
             else:
                 ctx.violation("R09.4", "BoundBox::side/%s" % v, "BoundBox::side(%s) returns %s, expected %s" % (v, ".".join(got.get(v, ("?",))), ".".join(wp)), "%s:%d" % (g.sp[0], g.sp[1]))
     ctx.assume("the side / alignment / separation / reflection arithmetic of resolve_instance_place and array pitches are value-level and NOT decided; cycle detection is decided under C17")
+
+    # ---- R09.5 mirroring an array's children: coordinate and orientation flip together, and exactly when the array is mirrored
+    rule_mirror_pairing(ctx, "R09.5")
+    # ---- R09.6 direction of the separation
+    rule_separation_sign(ctx, "R09.6")
+
+
+AXIS_OF = {"reflect_horiz": "x", "reflect_vert": "y"}
+
+
+def rule_mirror_pairing(ctx, rid):
+    """Children of a reflected array are mirrored about the array origin: per axis, on every path through the loop that
+    translates the children, `loc.<axis>` is negated iff the child's own reflect flag is toggled iff the array's flag is set."""
+    from analysis import ctrl
+    from analysis.mir import op_place, op_const
+    ctx.rule(rid, "when an array's children are translated to the array's placement, on every path and for each axis: the child's coordinate is negated exactly when its own reflection flag is toggled, and exactly when the array's reflection flag for that axis is set")
+    F = ctx.F
+    n = 0
+    for f in F.fns.values():
+        if not f.id.startswith("layout21tetris::placer::") or f.kind == "Closure":
+            continue
+        b = Body(f)
+        ev = {}  # bb -> list of events
+        for bi, blk in enumerate(b.blocks):
+            if blk["cleanup"] or bi not in b.reachable:
+                continue
+            for st in blk["st"]:
+                if st["k"] == "assign" and st["rv"]["k"] == "un" and st["rv"]["op"] == "Not" and st["p"]["p"]:
+                    last = st["p"]["p"][-1]
+                    if isinstance(last, dict) and last.get("n") in AXIS_OF:
+                        src = b.def_rvalue(st["rv"]["o"])
+                        q = op_place(st["rv"]["o"])
+                        d0 = b.single_def(q["l"]) if q is not None and not q["p"] else None
+                        if d0 and d0[2] == "assign" and d0[3]["rv"]["k"] == "use" and op_place(d0[3]["rv"]["o"]) == st["p"]:
+                            ev.setdefault(bi, []).append(("tog", last["n"]))
+            t = blk["term"]
+            if t["k"] == "call" and re.search(r"MulAssign<.*>>::mul_assign$", callee_name(t) or "") and len(t["args"]) == 2:
+                c = op_const(t["args"][1])
+                rv = b.def_rvalue(t["args"][0])
+                if c is not None and c.get("int") == -1 and rv and rv["k"] == "ref" and rv["p"]["p"]:
+                    last = rv["p"]["p"][-1]
+                    if isinstance(last, dict) and last.get("n") in ("x", "y"):
+                        ev.setdefault(bi, []).append(("neg", last["n"]))
+        if not any(e[0] == "tog" for es in ev.values() for e in es):
+            continue
+        for header, blocks in b.loops():
+            if not any(bi in blocks for bi in ev):
+                continue
+            n += 1
+            key = "%s/loop" % f.short
+            problems = []
+            # enumerate the acyclic paths of one iteration
+            stack = [(header, (), {}, frozenset([header]))]
+            steps = 0
+            while stack and steps < 20000:
+                steps += 1
+                bb, events, facts, seen = stack.pop()
+                events = events + tuple(ev.get(bb, ()))
+                t = b.term(bb)
+                succs = [s for s in b.succs[bb] if s in blocks]
+                if t["k"] == "switch":
+                    c = ctrl.classify_switch(b, bb)
+                    flag = None
+                    if c[0] == "value" and c[1][1] and c[1][1][-1] in AXIS_OF and c[1][0][0] == "arg":
+                        flag = c[1][1][-1]
+                    for v, tgt in list(t["arms"]) + [(None, t["else"])]:
+                        if tgt not in blocks:
+                            continue
+                        f2 = dict(facts)
+                        if flag is not None:
+                            f2[flag] = (v != 0) if v is not None else True
+                        if tgt == header:
+                            problems += _pairing_problems(events, f2)
+                        elif tgt not in seen:
+                            stack.append((tgt, events, f2, seen | {tgt}))
+                    continue
+                for s2 in succs:
+                    if s2 == header:
+                        problems += _pairing_problems(events, facts)
+                    elif s2 not in seen:
+                        stack.append((s2, events, facts, seen | {s2}))
+            if problems:
+                ctx.violation(rid, key, "%s: %s" % (f.short, "; ".join(sorted(set(problems))[:3])), b.site(header), key)
+            else:
+                ctx.ok(rid, key, "coordinate negation, flag toggle and array flag agree on every path, per axis")
+    ctx.floor(rid, "mirroring_loops", n, 1)
+
+
+def _pairing_problems(events, facts):
+    out = []
+    for flag, axis in AXIS_OF.items():
+        neg = ("neg", axis) in events
+        tog = ("tog", flag) in events
+        if neg != tog:
+            out.append("on some path the child's %s coordinate is %s but its %s flag is %s: the child is moved to the mirrored position without being mirrored itself (or the reverse)" % (
+                axis, "negated" if neg else "kept", flag, "toggled" if tog else "kept"))
+        if flag in facts and facts[flag] != neg:
+            out.append("the array's %s is %s on a path that %s the children's %s coordinate" % (flag, facts[flag], "negates" if neg else "does not negate", axis))
+        if flag in facts and facts[flag] != tog:
+            out.append("the array's %s is %s on a path that %s the children's own %s" % (flag, facts[flag], "toggles" if tog else "does not toggle", flag))
+    return out
+
+
+def rule_separation_sign(ctx, rid):
+    """The requested separation moves the placed instance away from the reference: towards negative coordinates for
+    Side::Left / Side::Bottom, positive for Top / Right — whatever the instance's own reflection or size."""
+    from analysis import ctrl
+    ctx.rule(rid, "the separation is negated exactly for Side::Left and Side::Bottom, and that decision depends on the requested side alone (not on the instance's reflection, size or any flag derived from them)")
+    F = ctx.F
+    n = 0
+    for f in F.fns.values():
+        if not f.id.startswith("layout21tetris::placer::") or f.kind == "Closure" or not any("RelativePlace" in i.get("s", "") for i in f.inputs):
+            continue
+        b = Body(f)
+        for bi, t in b.calls():
+            if not re.search(r"::negate$", callee_name(t) or ""):
+                continue
+            n += 1
+            key = "%s/negate" % f.short
+            bad = []
+            for c in ctrl.control_sources(b, bi):
+                if c[0] in ("try", "next"):
+                    continue
+                if c[0] in ("discr", "value") and c[-1][1] and c[-1][1][-1] == "side" and c[-1][0][0] == "arg":
+                    continue
+                bad.append(ctrl.fmt_path(c[-1]) if c[0] in ("discr", "value", "callres") else (c[1].split("::")[-1] + "(..)" if c[0] == "call" else str(c[1:])))
+            routed = set()
+            for sbb, arms, other, eid in od.enum_switches(F, b, "Side"):
+                allv = [v["name"] for v in F.adts[eid]["variants"]] if eid in F.adts else []
+                for v in allv:
+                    tgt = arms.get(v, other)
+                    if tgt is not None and (tgt == bi or bi in od.reach(b, tgt, removed=[x for x in set(arms.values()) | {other} if x is not None and x != tgt])) and b.dominates(sbb, bi):
+                        if b.dominates(tgt, bi):
+                            routed.add(v)
+            if bad:
+                ctx.violation(rid, key, "%s: whether the separation is negated is decided by %s rather than by the requested side alone: for some combination of side and reflection the instance is moved into the reference instead of away from it" % (f.short, ", ".join(sorted(set(bad)))), b.site(bi), key)
+            elif routed and routed != {"Left", "Bottom"}:
+                ctx.violation(rid, key, "%s negates the separation for sides %s; it must be negated exactly for Left and Bottom" % (f.short, sorted(routed)), b.site(bi), key)
+            else:
+                ctx.ok(rid, key, "negated for %s, decided by the side alone" % sorted(routed))
+    ctx.floor(rid, "separation_negations", n, 1)
+
